@@ -22,6 +22,22 @@ OTHER = [('ext_maths', 3), ('osc_maths', 2), ('base10_maths', 3), ('keep_duplica
 FIT_OPTS = dict(Niter_params=[2], Nconv_params=[1])
 
 
+DIRECTED = []
+for _cfg in (('core_maths', 3), ('core_maths', 4), ('osc_maths', 3)):
+    for _P in (1, 2):
+        DIRECTED.append(dict(cfg=_cfg, kind='gen', P_obs=_P, ops=['gen_identical']))
+        DIRECTED.append(dict(cfg=_cfg, kind='gen', P_obs=_P, ops=['gen_same_basis', 'gen_other', 'gen_identical', 'gen_same_basis']))
+    DIRECTED.append(dict(cfg=_cfg, kind='gen', P_obs=1, P_first=3, ops=['gen_identical', 'restart:2', 'gen_identical', 'restart:1']))
+for _st in STAGES:
+    DIRECTED.append(dict(cfg=('core_maths', 3), kind='fit', stage=_st, P_obs=1, P_first=3, ipe=False, ops=['pipe_same', 'restart:1']))
+    DIRECTED.append(dict(cfg=('core_maths', 3), kind='fit', stage=_st, P_obs=2, P_first=3, ipe=False, ops=['pipe_same', 'pipe_same', 'restart:2']))
+    DIRECTED.append(dict(cfg=('core_maths', 3), kind='fit', stage=_st, P_obs=1, P_first=2, ipe=False, like_oth=2, ops=['pipe_other_like', 'pipe_same']))
+    DIRECTED.append(dict(cfg=('osc_maths', 3), kind='fit', stage=_st, P_obs=1, P_first=1, ipe=True, ops=['pipe_other_basis', 'pipe_same']))
+    DIRECTED.append(dict(cfg=('core_maths', 3), kind='fit', stage=_st, P_obs=2, P_first=2, ipe=True, ops=['pipe_other_basis', 'gen_other']))
+DIRECTED.append(dict(cfg=('core_maths', 3), kind='fit', stage='test_all', P_obs=1, P_first=1, ipe=True, ops=['pipe_other_basis']))
+DIRECTED.append(dict(cfg=('core_maths', 4), kind='fit', stage='test_all', P_obs=1, P_first=1, ipe=True, ops=['pipe_other_basis', 'pipe_other_like']))
+
+
 def sigs_of(args, r):
     s = set()
     if r is None:
@@ -45,15 +61,20 @@ def pipeline(like_name, comp, upto=None, opts=None):
     return prog
 
 
-def draw_history(seed, i, quick):
+def draw_history(seed, i, quick, recipe=None):
     rs = base.run_seed(seed, i)
     rng = base.rng_for(rs)
+    recipe = recipe or {}
     obs_cfg = rng.choice(OBS_CONFIGS[:4] if rng.random() < 0.8 else OBS_CONFIGS)
+    if recipe.get('cfg'):
+        obs_cfg = tuple(recipe['cfg'])
     runname, n = obs_cfg
     kind = 'gen' if rng.random() < 0.45 else 'fit'
+    kind = recipe.get('kind', kind)
     if kind == 'fit' and n < 3:
         runname, n = 'core_maths', 3
     P_obs = rng.choice([1, 1, 2])
+    P_obs = recipe.get('P_obs', P_obs)
     like_obs = dict(cls='Gauss', data_file='data.txt', run_name='obs', data_dir='user', fn_set=runname)
     like_oth = rng.choice([dict(cls='Gauss', data_file='data.txt', run_name='oth', data_dir='user2', fn_set=runname),
                            dict(cls='Poisson', data_file='counts.txt', run_name='obs', data_dir='user3', fn_set=runname),
@@ -64,8 +85,16 @@ def draw_history(seed, i, quick):
         data['user'] = dict(cls='Gauss', file='data.txt', seed=rs % 1000, npts=24)
     segments = [dict(P=rng.choice([1, 1, 2, 3]), program=[])]
     ipe = rng.random() < 0.35           # test_all with ignore_previous_eqns=True (needs the lower complexities)
+    ipe = recipe.get('ipe', ipe)
+    if recipe.get('P_first'):
+        segments[0]['P'] = recipe['P_first']
     topt = dict(FIT_OPTS, ignore_previous_eqns=True) if ipe else dict(FIT_OPTS)
     other_basis = rng.choice([b for b in ('ext_maths', 'osc_maths', 'base_e_maths', 'core_maths') if b != runname])
+    if recipe.get('like_oth') is not None:
+        like_oth = [dict(cls='Gauss', data_file='data.txt', run_name='oth', data_dir='user2', fn_set=runname),
+                    dict(cls='Poisson', data_file='counts.txt', run_name='obs', data_dir='user3', fn_set=runname),
+                    dict(cls='Gauss', data_file='data.txt', run_name='oth', data_dir='user', fn_set=runname)][recipe['like_oth']]
+        data[like_oth['data_dir']] = dict(cls=like_oth['cls'], file=like_oth['data_file'], seed=rs % 1000 + (0 if like_oth['data_dir'] == 'user' else 1), npts=24)
     libs = set()
     likes_here = set()
     desc = []
@@ -84,8 +113,18 @@ def draw_history(seed, i, quick):
             cur().append(['like', dict(lk, name=name)])
             likes_here.add(name)
     nops = rng.randint(0, 5)
-    for _ in range(nops):
+    CODES = {'gen_other': 0.1, 'gen_same_basis': 0.3, 'gen_identical': 0.5, 'pipe_same': 0.6, 'pipe_other_like': 0.7, 'pipe_other_basis': 0.8,
+             'restart': 0.95}
+    plan_ops = recipe.get('ops')
+    for oi in range(len(plan_ops) if plan_ops is not None else nops):
         c = rng.random()
+        forced_P = None
+        if plan_ops is not None:
+            code = plan_ops[oi]
+            if code.startswith('restart:'):
+                forced_P = int(code.split(':')[1])
+                code = 'restart'
+            c = CODES[code]
         if c < 0.2:
             rn, cc = rng.choice(OTHER)
             if quick and configs.nfun(configs.SHIPPED[rn], cc) > 300:
@@ -119,7 +158,7 @@ def draw_history(seed, i, quick):
             desc.append('pipeline other basis %s' % other_basis)
         else:
             if cur():
-                segments.append(dict(P=rng.choice([1, 2, 3]), program=[]))
+                segments.append(dict(P=forced_P or rng.choice([1, 2, 3]), program=[]))
                 likes_here = set()
                 desc.append('restart P=%d' % segments[-1]['P'])
     # the observed call runs in a segment with P_obs ranks
@@ -136,7 +175,7 @@ def draw_history(seed, i, quick):
         cur().append(['gen', dict(runname=runname, compl=n)])
         observed = dict(kind='gen', runname=runname, compl=n, P=P_obs, npseed=npseed)
     else:
-        stage = rng.choice(STAGES)
+        stage = recipe.get('stage') or rng.choice(STAGES)
         need_lib(runname, n)
         need_like('Lobs', like_obs)
         cur().extend(pipeline('Lobs', n, upto=stage, opts=topt))
@@ -203,6 +242,16 @@ def main(tier, seed, budget):
         deadline = time.time() + explore_s
 
         def gen():
+            # directed histories first: every known state carrier is exercised in every run
+            for k, rc in enumerate(DIRECTED):
+                a = draw_history(seed, 400000 + k, quick, recipe=rc)
+                o = a['observed']
+                if o['kind'] == 'gen':
+                    a['ref_hashes'] = refs.get((o['runname'], o['compl'], o['P']))
+                    if a['ref_hashes'] is None:
+                        continue
+                a['directed'] = k
+                yield dict(fn=JOB, args=a, timeout=1500)
             i = 0
             while True:
                 j = mk(i)
@@ -274,7 +323,7 @@ def main(tier, seed, budget):
         rule='one evaluation = one generated history executed in simulated worlds (segments separated by process restarts, P in {1,2}) plus the '
              'fresh comparator world. Non-trivial = at least one earlier operation precedes the observed call; distinct by (observed call, '
              'sequence of earlier operations).',
-        samples=samples, histories=stats['histories'], observed_calls=stats['by_kind'], history_lengths=stats['by_len'],
+        samples=samples, histories=stats['histories'], directed_histories=len(DIRECTED), observed_calls=stats['by_kind'], history_lengths=stats['by_len'],
         earlier_operations=stats['ops'], histories_with_ignore_previous_eqns=stats['ipe'], process_restarts=stats['restarts'], fresh_comparator_worlds=stats['fresh_worlds'],
         seam_events=stats['events'], runs_per_hour=round(3600.0 * stats['histories'] / max(wall, 1e-9)),
         fault_kinds={'F4 history operations': sum(stats['ops'].values()), 'F4 process restarts': stats['restarts']}, selftest=selftest,
